@@ -309,6 +309,8 @@ def roundtrip_schedule(ctx, inst, jobs, sched, rng, i):
     seqs = [[so.operation.job_id for so in ml] for ml in sched.schedule]
     s3 = Schedule.from_job_sequences(inst, seqs)
     ctx.check(sched_tuples(s3) == want, "job_sequences_roundtrip", lambda: f"op {i}: from_job_sequences(seq(S)) gives {sched_tuples(s3)}, S = {want}")
+    # "identical" as the user tests it: the rebuilt schedules compare equal to the original
+    ctx.check((s2 == sched) is True and (s3 == sched) is True, "rebuilt_schedule_compares_equal", lambda: f"op {i}: from_dict(to_dict(S)) == S is {s2 == sched}, from_job_sequences(seq(S)) == S is {s3 == sched} although their contents are identical")
     ctx.probe("schedule_roundtrip")
 
 
@@ -321,6 +323,7 @@ def roundtrip_instance(ctx, inst, jobs, rng, i, flex, jim):
     i2 = JobShopInstance.from_matrices(**src)
     ctx.check(same_content(inst, i2), "instance_dict_roundtrip", lambda: f"op {i}: from_matrices(to_dict(I)) via {via} = {[[(op.machines, op.duration) for op in job] for job in i2.jobs]} name={i2.name!r} metadata={i2.metadata}; I has {[[(list(ms), dd) for ms, dd in job] for job in jobs]} name={inst.name!r} metadata={inst.metadata}", via=via)
     check_views(ctx, i2, jobs, f"op {i}: instance rebuilt from its dictionary")
+    ctx.check((i2 == inst) is True, "instance_dict_roundtrip", lambda: f"op {i}: from_matrices(to_dict(I)) == I is {i2 == inst} although the operations are the same", via="eq")
     ctx.probe("instance_roundtrip")
     if not flex:
         sym = rng.choice(["#", "#", "#", "%", "//", ";;"])  # the file's comment symbol is the caller's to name
